@@ -39,6 +39,8 @@ use std::sync::{Arc, OnceLock};
 const MAX_COST: u64 = 11_000_000_000;
 type Loc = BTreeMap<String, u64>;
 
+static GENUINE_ACCEPTED: std::sync::atomic::AtomicU64 = std::sync::atomic::AtomicU64::new(0);
+
 fn bump(loc: &mut Loc, k: &str) {
     *loc.entry(k.to_string()).or_insert(0) += 1;
 }
@@ -683,7 +685,12 @@ fn ff_check(c: &FfCase, loc: &mut Loc) -> Result<(), (String, String)> {
             return Ok(());
         }
         (Ok(_), Err(why)) => return Err((format!("ff/accepts/{}", c.class), format!("not a genuine singleton spend / rebase target ({why}), yet fast_forward_singleton returned Ok"))),
-        (Err(e), Ok(())) => return Err(("ff/genuine-spend-refused".into(), format!("a genuine singleton spend with matching lineage and a well-formed target was refused: {e}"))),
+        (Err(_), Ok(())) => {
+            // the property has no liveness clause: refusing a genuine spend is allowed. It is counted,
+            // and `run` reports a machinery error if no genuine spend at all is accepted (vacuity).
+            bump(loc, "ff/genuine-refused");
+            return Ok(());
+        }
         (Ok(ns), Ok(())) => ns,
     };
     // 1. the rewritten solution differs from the original only in the three fields
@@ -807,6 +814,9 @@ fn run_ff(rep: &Report) {
             let sample = (bi == 0 || seed).then(|| json!({"part": "fast-forward", "base": b.name, "coin": b.coin.json(), "solution": format!("{:?}", b.parts.solution()), "targets": tg.len(), "corruption_classes": classes}));
             rep.evals(n_gen + n_cor);
             for (k, n) in loc {
+                if k.starts_with("ff/genuine-accepted") {
+                    GENUINE_ACCEPTED.fetch_add(n, std::sync::atomic::Ordering::Relaxed);
+                }
                 rep.outcome_n(&k, n);
             }
             rep.distinct_many(d);
@@ -817,6 +827,9 @@ fn run_ff(rep: &Report) {
         if let Some(s) = &t.3 {
             rep.sample(s.clone());
         }
+    }
+    if GENUINE_ACCEPTED.load(std::sync::atomic::Ordering::Relaxed) == 0 {
+        rep.machinery_error("vacuous fast-forward part: not a single genuine singleton spend was accepted");
     }
     rep.extra("ff_cases", json!({"genuine": totals.iter().map(|t| t.0).sum::<u64>(), "corrupted": totals.iter().map(|t| t.1).sum::<u64>(), "corruption_classes": totals.iter().map(|t| t.2).max().unwrap_or(0)}));
 }
